@@ -148,6 +148,51 @@ def run(R, tier, seed, driver_ok):
             if name == 'Covariance' and driver_ok:
                 lines.append(f'cov {n} {d} {bits(X)}'); meta.append(('cov-translate', len(lines)))
                 lines.append(f'cov {n} {d} {bits(X + t)}'); meta.append(None)
+    # ---- RCA on chunk assignments of every shape: one-point chunklets, unlabelled points (-1), unbalanced sizes
+    from metric_learn import RCA
+    for rep in range(6 if tier == 'quick' else 40):
+        d = int(rng.randint(2, 5)); n = int(rng.randint(4 * d + 4, 6 * d + 8))
+        X = np.round(rng.randn(n, d) * 8) / 8 + np.round(rng.randn(d) * 4)
+        chunks = -np.ones(n, dtype=int)
+        order = rng.permutation(n); pos = 0; cid = 0
+        while pos < n - 2:
+            sz = int(rng.choice([1, 1, 2, 3, 4, 5]))
+            if pos + sz > n:
+                break
+            if rng.rand() < 0.15:
+                pos += sz; continue                                  # left unlabelled
+            chunks[order[pos:pos + sz]] = cid; cid += 1; pos += sz
+        sizes = np.bincount(chunks[chunks >= 0]) if cid else np.array([])
+        if (sizes >= 2).sum() < d + 1:
+            continue
+        Qp = rng.randn(6, 2, d)
+        try:
+            with warnings.catch_warnings():
+                warnings.simplefilter('ignore')
+                base = RCA().fit(X, chunks)
+        except Exception as e:
+            R.count(f'rca-chunks-fit-raises:{type(e).__name__}'); continue
+        d0 = base.pair_distance(Qp)
+        tvec = np.round(rng.randn(d) * 8) / 4
+        Qm = np.linalg.qr(rng.randn(d, d))[0]
+        pm = rng.permutation(n)
+        c = float(rng.choice([0.25, 4.0]))
+        rels = [('translation', X + tvec, chunks, Qp + tvec, d0, 1e-9), ('rotation', X.dot(Qm.T), chunks, Qp.dot(Qm.T), d0, 1e-8),
+                ('permutation', X[pm], chunks[pm], Qp, d0, 1e-9), ('scaling', X * c, chunks, Qp, d0 / c, 1e-9)]
+        for tag, X2, ch2, Q2, want, tol in rels:
+            case = {'est': 'RCA', 'relation': tag, 'X': X, 'chunks': chunks, 'singleton_chunklets': int((sizes == 1).sum())}
+            R.case(('c19', 'RCA-chunks', tag, X.tobytes().hex()[:40]), True,
+                   sample={'est': 'RCA', 'relation': tag, 'd': d, 'n': n, 'singleton_chunklets': int((sizes == 1).sum()), 'unlabelled': int((chunks < 0).sum())},
+                   branch=f'rca-chunks:{tag}:{"singletons" if (sizes == 1).any() else "no-singletons"}')
+            try:
+                with warnings.catch_warnings():
+                    warnings.simplefilter('ignore')
+                    got = RCA().fit(X2, ch2).pair_distance(Q2)
+            except Exception as e:
+                R.violation(f'RCA/{tag}-raises-{type(e).__name__}', f'RCA: fit on the {tag} of the data raised {type(e).__name__}', case); continue
+            scale = max(np.abs(want).max(), 1e-300)
+            if np.abs(got - want).max() > tol * scale:
+                R.violation(f'RCA/{tag}', f'RCA (chunklets of sizes {sorted(sizes.tolist())}): learned distances change under {tag} (max relative deviation {np.abs(got - want).max() / scale:.3g})', case)
     if driver_ok and lines:
         outs = lean_run(lines)
         for i, mt in enumerate(meta):
